@@ -153,6 +153,21 @@ def run(ctx: Context, rep) -> None:
            where=check.qualname,
            construct=f"if {short(g.test) if g else '?'}: compare root digests",
            message="supplied root digests are verified")
+    # ... on every path: with expected root digests supplied no normal exit
+    # of check() is reachable without computing the current root digests and
+    # without passing a comparison (an early "nothing to check" return would
+    # accept a rolled-back description)
+    from sa.cfg import TRUTHY as _T
+    cfg_r = CFG(check, env={"hash_checksums_values": _T})
+    nf_ = lambda a, b, lab: lab not in ("exc", "raise")  # noqa: E731
+    cmc_nodes = [n for n in cfg_r.calls() if ctx.is_call(
+        check, n.ast, method="current_metadata_checksums")]
+    around = cfg_r.reachable([cfg_r.entry], avoiding=cmc_nodes, follow=nf_)
+    rep.ob("C05.cover", bool(cmc_nodes) and cfg_r.exit not in around,
+           loc=check.loc(), where=check.qualname,
+           construct="expected root digests given: every normal path "
+           "computes the current root digests",
+           message="the root comparison cannot be skipped by an early return")
     cm = ctx.fn(f"{DW}.current_metadata_checksums")
     hc = [c for c in cm.calls() if ctx.is_call(cm, c, "utils.hash_checksums")]
     fp = ctx.arg(hc[0], 0, "file_path") if hc else None
